@@ -27,12 +27,14 @@ FAMILIES = {
 }
 QUICK_FAMS = ["mg3", "mg4", "smg3", "crg2", "crg3", "scrg2", "star5", "star4lp", "lp2", "ethener", "nopar", "ethene", "two", "tbp", "oct", "sn2"]
 THOROUGH_FAMS = list(FAMILIES)
+LABEL_FAMS = {"mg3", "star4lp", "lp2", "two", "nopar"}
 PAIR_CAP = {"quick": 3000, "thorough": 400000}
 
 
-def cfg_text(fam, mod, with_pairs=True):
-    return ("SPECIFICATION Spec\nCONSTANTS\n  Fam = \"%s\"\n  SampleMod = %d\n  WithPairs = %s\n"
-            "CONSTRAINT Emit\nINVARIANT PairThm\nCHECK_DEADLOCK FALSE\n" % (fam, mod, "TRUE" if with_pairs else "FALSE"))
+def cfg_text(fam, mod, with_pairs=True, with_labels=False):
+    return ("SPECIFICATION Spec\nCONSTANTS\n  Fam = \"%s\"\n  SampleMod = %d\n  WithPairs = %s\n  WithLabels = %s\n"
+            "CONSTRAINT Emit\nINVARIANT PairThm\nCHECK_DEADLOCK FALSE\n"
+            % (fam, mod, "TRUE" if with_pairs else "FALSE", "TRUE" if with_labels else "FALSE"))
 
 
 def shuffled_build(gj, idm, rnd):
@@ -54,7 +56,7 @@ def run_family(args):
     mod = FAMILIES[fam][0 if tier == "quick" else 1]
     d = tempfile.mkdtemp(prefix="smg-iso-")
     cfg = os.path.join(d, "iso.cfg")
-    open(cfg, "w").write(cfg_text(fam, mod, bool(need - {"mirror"})))
+    open(cfg, "w").write(cfg_text(fam, mod, bool(need - {"mirror"}), "enum" in need and fam in LABEL_FAMS))
     try:
         res = common.run_tlc("MC_IsoPairs", cfg=cfg, workers=4, prefixes=("G", "P", "E"), timeout=3000, heap="6g")
     finally:
@@ -108,7 +110,7 @@ def run_family(args):
     stereo = kind in ("SMG", "SCRG")
     changes = kind == "SCRG"
     reaction = kind in ("CRG", "SCRG")
-    n_pairs = n_iso = n_enum = n_sigdiff = n_su = 0
+    n_pairs = n_iso = n_enum = n_sigdiff = n_su = n_lab = n_sym = 0
     hashes = {}
 
     def H(tag, i, o):
@@ -194,6 +196,36 @@ def run_family(args):
             if exp_set - got_set:
                 fail({"C05"}, f"enum-missing|{fam}|{kind}", "a structure-preserving bijection is not yielded",
                      {**det, "missing": [list(m) for m in list(exp_set - got_set)[:3]]})
+        # C05 with caller-supplied labels, and the symmetry number
+        if exp_maps is not None:
+            src = sorted(a[0] for a in graphs[i]["atoms"])
+            for key, lab in (("lab2", lambda a: a % 2), ("lab1", lambda a: 7)):
+                if p.get(key) is None:
+                    continue
+                n_lab += 1
+                la = {idA.f(a[0]): lab(a[0]) for a in graphs[i]["atoms"]}
+                lb = {idB.f(a[0]): lab(a[0]) for a in graphs[j]["atoms"]}
+                try:
+                    got = list(vf2pp_all_isomorphisms(x, y, atom_labels=(la, lb), stereo=stereo, stereo_change=False))
+                except Exception as e:
+                    fail({"C05"}, f"enum-labels-raises|{fam}|{type(e).__name__}", "vf2pp_all_isomorphisms with caller labels raised", det)
+                    continue
+                exp_set = {tuple(sorted((idA.f(a), idB.f(b)) for a, b in zip(src, m))) for m in p[key]}
+                got_l = [tuple(sorted(m.items())) for m in got]
+                if len(got_l) != len(set(got_l)) or set(got_l) != exp_set:
+                    kindl = "duplicate" if len(got_l) != len(set(got_l)) else ("invalid" if set(got_l) - exp_set else "missing")
+                    fail({"C05"}, f"enum-labels-{kindl}|{fam}|{kind}|{key}",
+                         f"with caller-supplied labels the enumerator yields a {kindl} mapping", {**det, "labels": key})
+            if i == j and stereo and kind == "SMG" and p.get("spec", True):
+                n_sym += 1
+                try:
+                    from stereomolgraph.experimental import topological_symmetry_number
+                    tsn = topological_symmetry_number(x)
+                except Exception as e:
+                    tsn = f"raise:{type(e).__name__}"
+                if tsn != len(p["isos"]):
+                    fail({"C05"}, f"symmetry-number|{fam}|{'raises' if isinstance(tsn, str) else 'wrong'}",
+                         f"topological_symmetry_number is {tsn}, the number of stereo-preserving automorphisms is {len(p['isos'])}", det)
         if len(samples) < 3 and exp_iso and i != j:
             samples.append({"fam": fam, "g": graphs[i], "h": graphs[j], "n_isos": len(p["isos"])})
     # C06: enantiomer
@@ -230,7 +262,7 @@ def run_family(args):
                  f"g == g.enantiomer() is {same} but a bijection onto the mirror image "
                  f"{'exists' if m['achiral'] else 'does not exist'}", det)
     return {"fam": fam, "kind": kind, "states": res.distinct, "generated": res.generated, "graphs": len(graphs),
-            "pairs": n_pairs, "pairs_iso": n_iso, "enumerations": n_enum, "sig_different_pairs": n_sigdiff, "single_unit_pairs": n_su,
+            "pairs": n_pairs, "pairs_iso": n_iso, "enumerations": n_enum, "sig_different_pairs": n_sigdiff, "single_unit_pairs": n_su, "label_enumerations": n_lab, "symmetry_numbers": n_sym,
             "mirrors": n_mirror, "fails": fails, "samples": samples, "wall": res.wall}
 
 
@@ -266,7 +298,7 @@ def run_families(tier, prop):
 def collect(prop, tier, rep: Reporter, extra=None):
     results = run_families(tier, prop)
     tot = {"states": 0, "generated": 0, "graphs": 0, "pairs": 0, "pairs_iso": 0, "enumerations": 0,
-           "sig_different_pairs": 0, "single_unit_pairs": 0, "mirrors": 0}
+           "sig_different_pairs": 0, "single_unit_pairs": 0, "label_enumerations": 0, "symmetry_numbers": 0, "mirrors": 0}
     per = {}
     samples = []
     for r in results:
@@ -275,7 +307,7 @@ def collect(prop, tier, rep: Reporter, extra=None):
         for k in tot:
             tot[k] += r[k]
         per[r["fam"]] = {k: r[k] for k in ("kind", "graphs", "pairs", "pairs_iso", "enumerations",
-                                           "sig_different_pairs", "single_unit_pairs", "mirrors", "states")}
+                                           "sig_different_pairs", "single_unit_pairs", "label_enumerations", "symmetry_numbers", "mirrors", "states")}
         samples += r["samples"][:1]
         for f in r["fails"]:
             if prop in f["props"]:
